@@ -423,9 +423,9 @@ pub fn run_grpc(env: &Env, case: &GrpcCase) -> CaseReport {
     }
 }
 
-fn random_types(seed: u64) -> Vec<String> {
+fn random_types(seed: u64, n: usize) -> Vec<String> {
     let alphabet: Vec<char> = "ABCDEFGHIJKLMNOPQRSTUVWXYZabcdefghijklmnopqrstuvwxyz0123456789_./ ".chars().collect();
-    let strat = prop::collection::vec(prop::collection::vec(prop::sample::select(alphabet), 1..28), 6);
+    let strat = prop::collection::vec(prop::collection::vec(prop::sample::select(alphabet), 1..28), n);
     generate_one(&strat, seed).into_iter().map(|v| v.into_iter().collect::<String>()).collect()
 }
 
@@ -435,7 +435,7 @@ pub fn matrix(_env: &Env, ctx: &Ctx) -> Result<Vec<c16::Case>, String> {
     for extra in ["configqueryrequest", "ConfigQueryRequest ", " ConfigQueryRequest", "CONFIGPUBLISHREQUEST", "ConfigQueryRequestX", "ConfigInfoRequest", "", "ConnectionSetupRequest", "RaftAppendRequest "] {
         types.push(extra.to_string());
     }
-    types.extend(random_types(ctx.seed));
+    types.extend(random_types(ctx.seed, ctx.tier.pick(6, 80)));
     let mut out = vec![];
     for t in &types {
         let cluster_class = CLUSTER_TYPES.contains(&t.as_str());
